@@ -82,7 +82,7 @@ Print Assumptions C04_sdes_count_exceeds_any_length.
 (* BEGIN source-translation (generated by tools/mksourceprops.py; do not edit by hand) *)
 (* Unmarshal of each type, as translated from the Go source text on this run, is the model function the theorems above are about (zero-valued receiver; the _gen/_any forms say what a receiver that already holds data contributes).
    Gen/Funcs.v (module GoSrc) is written by srcgen/trans.go from /repo on every run; Lib/GoSem.v gives the meaning of its primitives. *)
-From RTCP Require Import Lib.Base Lib.GoSem Gen.Consts Gen.Funcs Model.Header Model.Reports Model.Sdes Model.ByeApp Model.Feedback Model.Twcc Model.Ccfb Model.Packet Proofs.SourceEquiv Proofs.SrcConv Proofs.SourceByeApp Proofs.SourceCcfb Proofs.SourceFeedback1 Proofs.SourceFeedback2 Proofs.SourceRR Proofs.SourceSR Proofs.SourceSdes.
+From RTCP Require Import Lib.Base Lib.GoSem Gen.Consts Gen.Funcs Model.Header Model.Reports Model.Sdes Model.ByeApp Model.Feedback Model.Twcc Model.Ccfb Model.Packet Proofs.SourceEquiv Proofs.SrcConv Proofs.SourceByeApp Proofs.SourceCcfb Proofs.SourceFeedback1 Proofs.SourceFeedback2 Proofs.SourceRR Proofs.SourceSR Proofs.SourceSdes Proofs.SourceTwccDec Proofs.SourceTwccEnc.
 Module C04_SourceByeApp.
 Import Proofs.SourceByeApp.
 Local Open Scope Z_scope.
@@ -266,4 +266,17 @@ Theorem C04_source_SourceDescription_Unmarshal : forall b,
 Proof. exact src_SourceDescription_Unmarshal. Qed.
 Print Assumptions C04_source_SourceDescription_Unmarshal.
 End C04_SourceSdes.
+Module C04_SourceTwccDec.
+Import Proofs.SourceTwccDec.
+Local Open Scope Z_scope.
+Theorem C04_source_TransportLayerCC_Unmarshal_gen : forall t0 raw, GoSrc.TransportLayerCC_RecvDeltas t0 = [] ->
+  GoSrc.TransportLayerCC_Unmarshal t0 raw =
+  res_map (fun t => twcc_prepend (GoSrc.TransportLayerCC_PacketChunks t0) (src_twcc t)) (TWCC_unmarshal raw).
+Proof. exact src_TransportLayerCC_Unmarshal_gen. Qed.
+Print Assumptions C04_source_TransportLayerCC_Unmarshal_gen.
+Theorem C04_source_TransportLayerCC_Unmarshal : forall b,
+  GoSrc.TransportLayerCC_Unmarshal GoSrc.zero_TransportLayerCC b = res_map src_twcc (TWCC_unmarshal b).
+Proof. exact src_TransportLayerCC_Unmarshal. Qed.
+Print Assumptions C04_source_TransportLayerCC_Unmarshal.
+End C04_SourceTwccDec.
 (* END source-translation *)
